@@ -76,7 +76,7 @@ def gen_net(rng, idx, profile):
         "conv": ["conv", "conv", "conv1x1", "dwconv", "maxpool", "avgpool_valid", "relu", "fc_end", "tconv"],
         "elementwise": ["add_self", "add_skip", "mul_const", "sub_const", "add_const", "minmax", "relu", "lrelu", "quantize",
                         "conv1x1", "mul_skip"],
-        "memory": ["concat", "split_concat", "slice", "pad_conv", "reshape_back", "conv1x1", "relu", "maxpool", "pad"],
+        "memory": ["concat", "split_concat", "slice", "pad_conv", "reshape_back", "conv1x1", "relu", "maxpool", "pad", "squeeze_expand"],
         "cascade": ["conv", "conv", "dwconv", "maxpool", "avgpool_valid", "conv1x1", "add_skip", "relu"],
         "weights": ["conv", "conv1x1", "conv1x1", "fc_end", "dwconv"],
         "cpu": ["conv_cpu", "conv", "add_self", "relu", "maxpool", "conv1x1", "conv_cpu", "concat"],
@@ -165,6 +165,14 @@ def gen_net(rng, idx, profile):
         elif kind == "reshape_back":
             r1 = b.reshape(cur, [1, hh * ww, 1, cc])
             new = b.reshape(r1, [1, hh, ww, cc])
+        elif kind == "squeeze_expand" and (hh == 1 or ww == 1):
+            ax = 1 if hh == 1 else 2
+            sq_shape = [d for i, d in enumerate(xt.shape) if i != ax]
+            sq = b.fm(sq_shape, xt.dtype, scale=xt.scales[0], zp=xt.zps[0])
+            b.net.ops.append(netgen.Op("SQUEEZE", [cur], [sq], ("SqueezeOptions", dict(SqueezeDims=[ax]))))
+            axt = b.const([], "int32", [ax], name=b.fresh("axis"))
+            new = b.fm(list(xt.shape), xt.dtype, scale=xt.scales[0], zp=xt.zps[0])
+            b.net.ops.append(netgen.Op("EXPAND_DIMS", [sq, axt], [new], ("ExpandDimsOptions", {})))
         elif kind == "tconv" and hh * ww <= 36 and xt.dtype != "int16":
             new = b.transpose_conv(cur, rng.choice([1, 4, 8]), rng.choice([(2, 2), (3, 3)]), (2, 2), rng.choice(["SAME", "VALID"]))
         elif kind == "fc_end" and hh * ww * cc <= 512:
@@ -180,7 +188,7 @@ def gen_net(rng, idx, profile):
         if last.kind in ("STRIDED_SLICE", "SPLIT"):
             # a slice is folded into its consumer as a read offset: windows with padding and fused activations go wrong
             avoid = set(allk) - {"conv1x1", "add_self", "add_skip", "mul_skip", "mul_const", "sub_const", "add_const", "quantize", "lrelu"}
-        if last.kind in ("QUANTIZE", "RESHAPE", "PAD") + ACTIVATION_LIKE or (last.opts and last.opts[1].get("FusedActivationFunction", 0)):
+        if last.kind in ("QUANTIZE", "RESHAPE", "PAD", "EXPAND_DIMS", "SQUEEZE") + ACTIVATION_LIKE or (last.opts and last.opts[1].get("FusedActivationFunction", 0)):
             avoid.add("relu")
         if last.kind == "PAD":
             avoid |= {"avgpool_valid", "avgpool_same"}      # folded into a depthwise convolution: its fused activation goes wrong
